@@ -17,4 +17,6 @@ EXTRAS = [
     lambda rep, fb, tier: st.rule_negaxis(rep, fb, floor=28),
     lambda rep, fb, tier: origin.rule_rebase(rep, fb),
     lambda rep, fb, tier: origin.rule_origin(rep, fb),
+    lambda rep, fb, tier: __import__("vf.rules.methodrules", fromlist=["x"]).rule_index_content(rep, fb),
+    lambda rep, fb, tier: __import__("vf.rules.methodrules", fromlist=["x"]).rule_option_shifts(rep, fb),
 ]
